@@ -1,17 +1,19 @@
 """C19 - transfers between geometries are total, nearest-based, identity on equal grids."""
 from checks import generic
-from contracts import c19
+from contracts import c19, c19b
 
 
 def main(tier):
-    return generic.run('C19', 'other', tier, c19, c19.programs(tier), c19.FUNCS, 'c19_transfer.py', 'mapping_and_transfer_vs_nearest_oracle',
+    return generic.run('C19', 'other', tier, c19, c19.programs(tier), c19.FUNCS + c19b.FUNCS, 'c19_transfer.py', 'mapping_and_transfer_vs_nearest_oracle',
         'pairs of geometries (coarse / fine rectangular, refinement, layer refinement, shifted, differently surfaced, rotated, shipped geometries) x 3x3 atmosphere types x conventions x 1..4 primary variables; '
         'block_mapping / layer_mapping against a brute-force nearest-centre oracle (ties never decide), self-identity, t2incon.transfer_from (exact states, atmosphere table, source unaltered), '
         't2data.transfer_from onto identical and refined geometries (generators, totals)',
         trust=('pyvc record model of two geometries with symbolic layer elevations and column surface; pyvc heap model of two real rectangular geometries built by the real constructor', 'numpy argmin: an index of a minimal element',
                'scipy.spatial.cKDTree (external): query(p) returns (distance, index) of a nearest stored point, the first among ties - assumed, compared with brute force in the bounded tier', 'z3 (QF_NRA for the squared distances)'),
         assume=('whole-mapping obligations: source 2x1x3 with a symbolic surface, target 2x1x2 / 3x1x2, all 3x3 atmosphere combinations, independent symbolic spacings and elevations (one horizontal direction); self-identity on 2x2x2',
-                'transfer of generators, other shapes, irregular meshes: bounded'),
+                'model transfer: the real t2data.transfer_from between models on 2x1x2 real geometries (identical target, or target with the first column halved), 3 atmosphere types, generators in a top-layer block and in a bottom block (constant MASS / HEAT and a 2-entry table), with and without preserve_generation_totals',
+                'top / bottom (column) generators, renaming, other shapes, irregular meshes: bounded'),
         explanation='clause -> evidence: layer_mapping maps every target layer to a source layer with minimal centre distance, never the atmosphere layer, surface to surface; block_mapping gives an underground target block a block that '
                     'exists in the source (the nearest layer, moved down to the column\'s first layer below ground when that block would be above the surface); a geometry maps onto itself by the identity: PROVED on the real methods with '
-                    'symbolic elevations (column mapping as an uninterpreted total function); and on two real rectangular geometries the whole block_mapping is total, picks the source column with the nearest centre and the nearest / first-below-ground layer, and sends atmosphere blocks to the source atmosphere block(s): PROVED for the 10 shape / atmosphere combinations under assume (column search through the assumed cKDTree contract). Nearest column on real meshes, incon and model transfers, atmosphere table: BOUNDED. 1 known finding (single target atmosphere block with a source that has none / one per column).')
+                    'symbolic elevations (column mapping as an uninterpreted total function); and on two real rectangular geometries the whole block_mapping is total, picks the source column with the nearest centre and the nearest / first-below-ground layer, and sends atmosphere blocks to the source atmosphere block(s): PROVED for the 10 shape / atmosphere combinations under assume (column search through the assumed cKDTree contract). The real t2data.transfer_from onto an identical geometry preserves every generator (name, block, type, rates, tables), the lookup and the print block; onto a geometry with a halved column every source generator lands exactly in the blocks mapped to its block and, with preserve_generation_totals, constant rates and every table entry add up to those of the source: PROVED (6 programs). Nearest column on real meshes, incon and model transfers, atmosphere table: BOUNDED. 1 known finding (single target atmosphere block with a source that has none / one per column).',
+        extra=[(c19b, c19b.PROGRAMS)])
